@@ -824,6 +824,60 @@ _BIN = {ast.Add: operator.add, ast.Sub: operator.sub, ast.Mult: operator.mul, as
         ast.LShift: operator.lshift, ast.RShift: operator.rshift}
 
 
+def _as_bool(v: V):
+    if v.kind == "bool":
+        return v.d
+    if v.kind == "const" and type(v.d) is bool and v.shadow is None:
+        return z3.BoolVal(v.d)
+    return None
+
+
+_OP_FUNCS = {operator.or_: ast.BitOr, operator.and_: ast.BitAnd, operator.xor: ast.BitXor, operator.add: ast.Add,
+             operator.sub: ast.Sub, operator.mul: ast.Mult}
+
+
+def _op_func_handler(node_cls):
+    def h(interp, st, args, kwargs):
+        if len(args) != 2 or kwargs:
+            raise Unsupported("operator function arity")
+        yield from binop(interp, st, node_cls(), args[0], args[1])
+    return h
+
+
+for _f, _n in _OP_FUNCS.items():
+    HANDLERS[_f] = _op_func_handler(_n)
+
+
+import functools as _functools
+
+
+@handler(_functools.reduce)
+def b_reduce(interp, st, args, kwargs):
+    """reduce(f, xs[, init]) over an iterable of statically known length"""
+    f, xs = args[0], args[1]
+    for s, r in iterate_concrete(interp, st, xs):
+        if r[0] != "ok":
+            yield s, r
+            continue
+        items = list(r[1])
+        if len(args) > 2:
+            items = [args[2]] + items
+        if not items:
+            yield s, (RAISE, interp.make_exception(s, TypeError, []))
+            continue
+
+        def go(i, s2, acc):
+            if i == len(items):
+                yield s2, ("ok", acc)
+                return
+            for s3, r3 in interp.call(s2, f, [acc, items[i]], {}):
+                if r3[0] != "ok":
+                    yield s3, r3
+                else:
+                    yield from go(i + 1, s3, r3[1])
+        yield from go(1, s, items[0])
+
+
 @handler("$binop")
 def binop(interp: Interp, st: St, op, a: V, b: V):
     ot = type(op)
@@ -832,6 +886,23 @@ def binop(interp: Interp, st: St, op, a: V, b: V):
         raise Unsupported(f"binary operator {ot.__name__}")
     if interp.is_concrete_like(a) and interp.is_concrete_like(b) and interp.common_root([a, b]) is not False:
         yield from interp.shadow_apply(st, fn, [a, b], name="op_" + ot.__name__)
+        return
+    if a.kind == "ref" and isinstance(st.heap[a.d], HObj):
+        # operator overloading of a repo class: a.__op__(b), inlined from the real source
+        dunder = {ast.BitOr: "__or__", ast.BitAnd: "__and__", ast.BitXor: "__xor__", ast.Add: "__add__", ast.Sub: "__sub__"}.get(ot)
+        meth = getattr(st.heap[a.d].cls, dunder, None) if dunder else None
+        rc = interp.resolve_repo_callable(meth) if meth is not None else None
+        if rc is None:
+            raise Unsupported(f"binary operator {ot.__name__} on an instance of {st.heap[a.d].cls.__name__}")
+        for s, r in interp.call_closure(st, rc[0], [a, b], {}):
+            if r[0] == "ok" and r[1].kind == "const" and r[1].d is NotImplemented:
+                raise Unsupported("reflected operator dispatch")
+            yield s, r
+        return
+    ba, bb = _as_bool(a), _as_bool(b)
+    if ba is not None and bb is not None and ot in (ast.BitOr, ast.BitAnd, ast.BitXor):
+        # bool & bool, bool | bool, bool ^ bool are the boolean operations (and return bool)
+        yield st, ("ok", V("bool", z3.simplify({ast.BitOr: z3.Or(ba, bb), ast.BitAnd: z3.And(ba, bb), ast.BitXor: z3.Xor(ba, bb)}[ot])))
         return
     ia, ib = _as_int(a), _as_int(b)
     if ia is not None and ib is not None and ot in (ast.Add, ast.Sub, ast.Mult):
@@ -1198,6 +1269,14 @@ def b_zip(interp, st, args, kwargs):
 
 @handler(builtins.reversed)
 def b_reversed(interp, st, args, kwargs):
+    from . import loops
+    if args[0].kind == "sym" and loops.as_concrete_items(interp, st, args[0]) is None and args[0].shadow is None:
+        # reversed() over a symbolic sequence: element j is element len-1-j (the argument is assumed to be a sequence)
+        v = V("sym", t=interp.ctx.fresh_val("reversed"))
+        v.tag = ("reversed", args[0])
+        interp.ctx.assume_note("reversed(xs) of a symbolic sequence xs yields xs[len-1], ..., xs[0]")
+        yield st, ("ok", v)
+        return
     for s, r in iterate_concrete(interp, st, args[0]):
         if r[0] != "ok":
             yield s, r
@@ -1216,6 +1295,35 @@ def b_all(interp, st, args, kwargs):
 
 
 def _any_all(interp, st, x, is_any):
+    if x.kind == "gen":
+        # a generator expression: over a symbolic sequence its values are a sequence term, and any/all is the quantified
+        # statement over it (elements are evaluated by total, effect-free calls — otherwise quantified_map raises/forks)
+        for s, r in x.d(st):
+            if r[0] != "ok":
+                yield s, r
+            elif isinstance(r[1], tuple) and r[1][0] == "term":
+                ys = r[1][1]
+                j = z3.Int("aj!")
+                rng = z3.And(j >= 0, j < T.F_len(ys))
+                tr = T.F_truth(T.F_at(ys, j))
+                k = interp.ctx.fresh_int("anyk" if is_any else "allk")
+                # witness side (skolemised) and universal side
+                s_w = s.fork()
+                wit = T.F_truth(T.F_at(ys, k))
+                s_w.assume(z3.And(k >= 0, k < T.F_len(ys), wit if is_any else z3.Not(wit)))
+                s_w.assume(T.F_touch(T.F_at(ys, k)))
+                if interp.check_sat(s_w):
+                    yield s_w, ("ok", const(is_any))
+                s.assume(z3.ForAll([j], z3.Implies(rng, z3.Not(tr) if is_any else tr), patterns=[T.F_at(ys, j)]))
+                if interp.check_sat(s):
+                    yield s, ("ok", const(not is_any))
+            elif isinstance(r[1], tuple) and r[1][0] == "items":
+                yield from _any_all(interp, s, V("tuple", list(r[1][1])), is_any)
+            elif isinstance(r[1], tuple):
+                raise Unsupported("any/all over an aliased symbolic sequence")
+            else:
+                yield from _any_all(interp, s, r[1], is_any)
+        return
     for s, r in iterate_concrete(interp, st, x):
         if r[0] != "ok":
             yield s, r
